@@ -19,10 +19,16 @@ type Options struct {
 }
 
 func (o Options) timeout() int {
-	if o.Tier == "thorough" {
-		return 120
+	if v := os.Getenv("GOVC_TIMEOUT"); v != "" {
+		var n int
+		if _, err := fmt.Sscanf(v, "%d", &n); err == nil && n > 0 {
+			return n
+		}
 	}
-	return 15
+	if o.Tier == "thorough" {
+		return 180
+	}
+	return 30
 }
 
 type Discharged struct {
